@@ -109,6 +109,10 @@ def plugin_case(draw):
         a = draw(st.sampled_from(actors))
         jobs.append({"id": f"j{i}", "actor": "zz_unknown" if foreign else a["name"], "queue": a["queue"],
                      "foreign": foreign, "attempts": [{"k": "ret", "v": i, "sleep": draw(DUR)}], "store_result": False})
+    # some jobs are handled by an actor that itself enqueues a follow-up job (run-on-enqueue nests)
+    for j in jobs:
+        if not j["foreign"] and draw(st.integers(0, 3)) == 0:
+            j["spawns"] = draw(st.sampled_from(actors))["name"]
     return {"actors": actors, "jobs": jobs, "policy": None, "converter": "basic"}
 
 
@@ -122,6 +126,18 @@ async def _plugin(loop, case, out: Outcome):
     await conn.connect()
     tr = scenario.Trace(case, env, None)  # type: ignore[arg-type]
     router = scenario.build_router(case, tr, loop)
+    spawned: list = []
+    queue_of = {a["name"]: a["queue"] for a in case["actors"]}
+
+    async def spawn(child: str = "", target: str = ""):
+        spawned.append(("start", child))
+        await Job(target, queue=queue_of[target], id_=child, _connection=conn).enqueue()
+        spawned.append(("end", child))
+        return child
+
+    from repid import BasicConverter
+
+    router.actor(spawn, name="spawn", queue=sorted(queue_of.values())[0], converter=BasicConverter)
     for q in sorted({a["queue"] for a in case["actors"]}):
         await Queue(q, _connection=conn).declare()
     RunWorkerOnEnqueueModifier(
@@ -131,6 +147,22 @@ async def _plugin(loop, case, out: Outcome):
     expected_total = 0
     for j in case["jobs"]:
         before = len(tr.execs)
+        if j.get("spawns"):
+            child = j["id"] + "-child"
+            try:
+                await asyncio.wait_for(Job("spawn", queue=sorted(queue_of.values())[0], id_=j["id"],
+                                           args={"child": child, "target": j["spawns"]}, _connection=conn).enqueue(), timeout=60.0)
+            except asyncio.TimeoutError:
+                out.v("plugin-hang", f"enqueue of {j['id']} (whose actor enqueues a follow-up job) did not return within 60 s; "
+                      f"progress {spawned[-2:]}")
+                return
+            new = tr.execs[before:]
+            kids = [e for e in new if e.id == child]
+            if spawned[-2:] != [("start", child), ("end", child)] or len(kids) != 1 or kids[0].end != "returned":
+                out.v("plugin-not-once", f"after enqueue() of {j['id']} returned: spawning actor progress {spawned[-2:]}, follow-up job ran "
+                      f"{len(kids)} times")
+            expected_total += 1
+            continue
         try:
             await asyncio.wait_for(Job(**scenario.job_kwargs(j, conn)).enqueue(), timeout=60.0)
         except asyncio.TimeoutError:
@@ -154,7 +186,7 @@ async def _plugin(loop, case, out: Outcome):
         if j["foreign"]:
             if [p.kind for p in places] != ["waiting"]:
                 out.v("plugin-foreign-place", f"foreign job {j['id']} should stay waiting, found {[p.short() for p in places]}")
-        elif places:
+        elif places or pr.get(j["id"] + "-child"):
             out.v("plugin-left-over", f"job {j['id']} still present after processing: {[p.short() for p in places]}")
 
 
